@@ -150,6 +150,12 @@ def cases(ctx):
         size = rng.choice([1, 7, 64, 500, MAXB - 1, MAXB, MAXB + 1, 2 * MAXB, len(stream) or 1])
         cs.append((rx, [stream[i : i + size] for i in range(0, len(stream), size)] or [b""]))
         cs.append((rx, [stream[i : i + 64] for i in range(0, len(stream), 64)] or [b""]))
+    # the same while discarding after a SUBSTITUTE byte: the data between it and the next FLAG is dropped, not kept
+    for size in (100, 1000, 5000):
+        f = ashlib.mk_frame("D:0:0:0:0102")
+        tail = b"\x7e" + bytes(ash.AshProtocol._stuff_bytes(f.to_bytes())) + b"\x7e"
+        cs.append((0, [b"\x42\x18"] + [bytes([0xEE]) * size] * ctx.n(30, 300) + [tail]))
+        cs.append((0, [b"\x18" + bytes([0xEE]) * size] + [bytes([0x55]) * size] * ctx.n(10, 100) + [tail]))
     # unterminated garbage far beyond the buffer, then a valid frame
     for size in (100, 1000):
         g = bytes([0xEE]) * size
